@@ -63,7 +63,8 @@ def drive(recipe):
     t = {"number": row["number"], "choice": row["choice"], "table_ops": row["ops"],
          "exc": "", "ops": [], "nops": 0, "centro": False, "latt": 1, "reduced": [],
          "steps": [], "number_reported": 0, "lookup_full": {"exc": "skipped", "number": 0, "choice": "", "ops": []},
-         "lookup_reduced": {"exc": "skipped", "number": 0, "choice": "", "ops": []}, "perms": [],
+         "lookup_reduced": {"exc": "skipped", "number": 0, "choice": "", "ops": []},
+         "lookup_reduced_again": {"exc": "skipped", "number": 0, "choice": "", "ops": []}, "perms": [],
          "meta": {"recipe": recipe, "source": "table-row",
                   "impl_call": "SpaceGroup(%d, choice=%r)" % (row["number"], row["choice"])}}
     try:
@@ -95,6 +96,12 @@ def drive(recipe):
     t["lookup_full"] = _lookup(lambda: SpaceGroup.from_symmetry_operations(list(sg.symmetry_operations)))
     t["lookup_reduced"] = _lookup(lambda: SpaceGroup.from_symmetry_operations(
         sg.reduced_symmetry_operations(), expand_latt=sg.latt))
+    # a caller keeps its list: looking the group up twice from the same list object must give the same answer
+    keep = sg.reduced_symmetry_operations()
+    first = _lookup(lambda: SpaceGroup.from_symmetry_operations(keep, expand_latt=sg.latt))
+    t["lookup_reduced_again"] = _lookup(lambda: SpaceGroup.from_symmetry_operations(keep, expand_latt=sg.latt))
+    if first != t["lookup_reduced"]:
+        t["lookup_reduced_again"] = first if first["exc"] else dict(first, exc="FirstCallDiffers")
     rng = random.Random(recipe["seed"])
     for _ in range(recipe["nperm"]):
         lst = list(sg.symmetry_operations)
